@@ -485,46 +485,26 @@ Proof.
 Qed.
 
 (* the chunk is exhausted and verified: move to the next record *)
-Lemma chunk_end_spec s pos k :
+Definition eof_state (s1 : xr) : xr :=
+  mkXR (r_data s1) (r_recs s1) (r_ri s1) (r_offset s1) (r_discard s1) (r_chk s1) (r_zr s1)
+       (Some EEOF) (r_log s1).
+
+Lemma chunk_end_unfold s pos k :
   Cur s pos k -> r_err s = None -> r_discard s = 0 -> z_rest (r_zr s) = [] ->
   let k' := Z.min (k + 1) L in
-  Cur (chunk_end s) pos k' /\
-  (k' < L -> r_err (chunk_end s) = None) /\
-  (k' = L -> r_err (chunk_end s) = Some EEOF) /\
-  Z.min pos endp = RawOffset (cu k).
+  let s1 := slow_state s pos k' in
+  hint_ri s pos = k' /\
+  Z.min pos endp = RawOffset (cu k) /\
+  chunk_end s = (if chk_typ s1 =? unknownType then eof_state s1 else s1).
 Proof.
   intros C He Hd Hz. cbv zeta.
   pose proof (c_k _ _ _ C) as Hk. pose proof L_pos as HL.
   pose proof (c_zlen _ _ _ C) as Hlen. rewrite Hz in Hlen. cbn [length] in Hlen.
   pose proof (c_lp _ _ _ C) as Hlp. rewrite Hd in Hlp.
   assert (Hlpc : Z.min pos endp = RawOffset (cu k)) by lia.
-  unfold chunk_end, chk_typ, chk_csize, chk_rsize. rewrite (c_chk _ _ _ C). cbn [fst snd].
-  (* sync check *)
-  assert (S1 : (RType (cu k) =? deflateType) && negb (z_sync_ok (r_zr s)) = false).
-  { destruct (RType (cu k) =? deflateType) eqn:E; [|reflexivity].
-    apply Z.eqb_eq in E. rewrite (c_sync _ _ _ C E). reflexivity. }
-  rewrite S1.
-  (* size check *)
-  assert (S2 : negb (((if RType (cu k) =? footerType
-                       then CompOffset (cu k) - CompOffset (pv k)
-                       else CompOffset (cu k) - CompOffset (pv k) + 5)
-                      =? zN (z_used (r_zr s)))
-                     && (RawOffset (cu k) - RawOffset (pv k) =? zN (z_outoff (r_zr s)))) = false).
-  { rewrite (c_used _ _ _ C). rewrite Z.eqb_refl. cbn [andb].
-    replace (RawOffset (cu k) - RawOffset (pv k) =? zN (z_outoff (r_zr s))) with true
-      by (symmetry; apply Z.eqb_eq; lia). reflexivity. }
-  rewrite S2.
-  (* the seek to the current offset takes the slow path *)
-  rewrite seek_unfold, (cur_not_blocked _ _ _ C). unfold spos. cbn [Z.eqb].
-  rewrite (c_off _ _ _ C).
   pose proof (c_pos _ _ _ C) as Hp.
-  replace (pos <? 0) with false by (symmetry; apply Z.ltb_ge; lia).
-  assert (Hf : fast_ok s pos = false).
-  { unfold fast_ok. rewrite (c_off _ _ _ C), Z.ltb_irrefl. reflexivity. }
-  rewrite Hf.
   assert (Hr : 0 <= r_ri s <= L) by (rewrite (c_ri _ _ _ C); lia).
-  destruct (slow_cur s pos (c_data _ _ _ C) (c_recs _ _ _ C) Hr Hp) as [C' E'].
-  (* which record it lands on *)
+  (* which record the seek lands on *)
   assert (Hri : hint_ri s pos = Z.min (k + 1) L).
   { unfold hint_ri. rewrite (c_recs _ _ _ C), (get_records_eq _ Hr), (c_ri _ _ _ C).
     destruct (Z.eq_dec k L) as [->|Hn].
@@ -555,15 +535,55 @@ Proof.
       replace (RawOffset (cu k) <=? pos) with true by (symmetry; apply Z.leb_le; lia).
       replace (pos <=? RawOffset (cu (k + 1))) with true by (symmetry; apply Z.leb_le; lia).
       reflexivity. }
+  split; [exact Hri|]. split; [exact Hlpc|].
+  unfold chunk_end, chk_typ, chk_csize, chk_rsize. rewrite (c_chk _ _ _ C). cbn [fst snd].
+  (* sync check *)
+  assert (S1 : (RType (cu k) =? deflateType) && negb (z_sync_ok (r_zr s)) = false).
+  { destruct (RType (cu k) =? deflateType) eqn:E; [|reflexivity].
+    apply Z.eqb_eq in E. rewrite (c_sync _ _ _ C E). reflexivity. }
+  rewrite S1.
+  (* size check *)
+  assert (S2 : negb (((if RType (cu k) =? footerType
+                       then CompOffset (cu k) - CompOffset (pv k)
+                       else CompOffset (cu k) - CompOffset (pv k) + 5)
+                      =? zN (z_used (r_zr s)))
+                     && (RawOffset (cu k) - RawOffset (pv k) =? zN (z_outoff (r_zr s)))) = false).
+  { rewrite (c_used _ _ _ C). rewrite Z.eqb_refl. cbn [andb].
+    replace (RawOffset (cu k) - RawOffset (pv k) =? zN (z_outoff (r_zr s))) with true
+      by (symmetry; apply Z.eqb_eq; lia). reflexivity. }
+  rewrite S2.
+  (* the seek to the current offset takes the slow path *)
+  rewrite seek_unfold, (cur_not_blocked _ _ _ C). unfold spos. cbn [Z.eqb].
+  rewrite (c_off _ _ _ C).
+  replace (pos <? 0) with false by (symmetry; apply Z.ltb_ge; lia).
+  assert (Hf : fast_ok s pos = false).
+  { unfold fast_ok. rewrite (c_off _ _ _ C), Z.ltb_irrefl. reflexivity. }
+  rewrite Hf, Hri. reflexivity.
+Qed.
+
+Lemma chunk_end_spec s pos k :
+  Cur s pos k -> r_err s = None -> r_discard s = 0 -> z_rest (r_zr s) = [] ->
+  let k' := Z.min (k + 1) L in
+  Cur (chunk_end s) pos k' /\
+  (k' < L -> r_err (chunk_end s) = None) /\
+  (k' = L -> r_err (chunk_end s) = Some EEOF) /\
+  Z.min pos endp = RawOffset (cu k).
+Proof.
+  intros C He Hd Hz. cbv zeta.
+  destruct (chunk_end_unfold s pos k C He Hd Hz) as [Hri [Hlpc Hce]]. cbv zeta in *.
+  pose proof (c_k _ _ _ C) as Hk. pose proof L_pos as HL. pose proof (c_pos _ _ _ C) as Hp.
+  assert (Hr : 0 <= r_ri s <= L) by (rewrite (c_ri _ _ _ C); lia).
+  destruct (slow_cur s pos (c_data _ _ _ C) (c_recs _ _ _ C) Hr Hp) as [C' E'].
   rewrite Hri in *. set (k' := Z.min (k + 1) L) in *.
   set (s1 := slow_state s pos k') in *.
   assert (Ht : chk_typ s1 = RType (cu k')).
   { unfold chk_typ. rewrite (c_chk _ _ _ C'). reflexivity. }
-  fold (chk_typ s1). rewrite Ht.
+  rewrite Hce, Ht.
   destruct (Z.eq_dec k' L) as [Ek|Ek].
   - rewrite Ek in *. rewrite typ_L. cbn [Z.eqb unknownType].
     split; [|split; [intros; lia | split; [intros; reflexivity | exact Hlpc]]].
-    destruct C'. constructor; cbn [r_data r_recs r_offset r_ri r_chk r_zr r_discard r_err]; try assumption.
+    unfold eof_state. destruct C'.
+    constructor; cbn [r_data r_recs r_offset r_ri r_chk r_zr r_discard r_err]; try assumption.
     right. split; reflexivity.
   - assert (Hk' : 0 <= k' < L) by (unfold k' in *; lia).
     pose proof (typ_known k' Hk') as Htk.
